@@ -2,6 +2,7 @@
 import io
 
 from .. import metas, msgs, smf
+from .. import envprobe
 from ..common import chunks, exc_name, generic_replay, pool_map
 
 RULE = ('messages of all 18 types x boundary values x sysex lengths {0,1,2,50} x times {0,-3,10**30,0.5,2.25,1e-7,1e300}: '
@@ -264,6 +265,7 @@ def run(ck):
     ck.sample({'text': texts[60]})
     ck.sample({'stream': streams[3]})
     ck.sample({'msg': [mcases[30][0], repr(mcases[30][1]), repr(mcases[30][2])]})
+    envprobe.check(ck, ['str'])
     return ck.finish(RULE, assumptions=['eval, the full grammar of int()/float() (non-ASCII digits, exponents, nan/inf) and float printing are '
                                         'CPython\'s: the model covers ASCII decimal integers (sign, underscores) and plain floats with <= 2 decimals; '
                                         'other numerals and all repr/eval round trips are decided by the oracle on the implementation only',
@@ -288,6 +290,8 @@ def _in_model_grammar(text):
 
 
 def oracle(case):
+    if 'environment' in case:
+        return envprobe.oracle(case)
     if 'msg' in case:
         t, d, time = case['msg']
         d = {k: tuple(v) if k == 'data' else v for k, v in d.items()}
